@@ -85,7 +85,8 @@ def parseSnap (ws : List String) (id : Nat) : Option Snap := do
   let su ← kvInt? ws "su"
   let sdl ← kvInt? ws "sdl"
   let leap ← (kvNat? ws "leap").bind liOf?
-  pure { idx := id, k := { s := { x := ⟨so, sf⟩, P := ⟨p00, p01, p10, p11⟩ }, time := kt }, wander := w,
+  let per ← (kv? ws "per").bind fun v => if v == "-" then some none else (F64.ofHex? v).map some
+  pure { idx := id, period := per, k := { s := { x := ⟨so, sf⟩, P := ⟨p00, p01, p10, p11⟩ }, time := kt }, wander := w,
          delay := sd, srcUnc := su, srcDelay := sdl, leap := leap, lastUpdate := t }
 
 def callStr : Call → String
@@ -123,7 +124,7 @@ def outStr (o : Out) : String :=
   match o.fin with
   | .ok =>
     let st := o.ctrl.st
-    s!"{calls} end=ok startup={boolStr st.inStartup} acc={st.acc} fo={st.freqOffset.toHex} df={st.desiredFreq.toHex} sm={srcMsgStr o.pub.srcMsg} used={usedStr o.pub.used} snap={snapshotStr o.pub.snapshot} nu={boolStr o.pub.nextUpdate} srcs={srcsStr o.ctrl.srcs}"
+    s!"{calls} end=ok startup={boolStr st.inStartup} acc={st.acc} fo={st.freqOffset.toHex} df={st.desiredFreq.toHex} sm={srcMsgStr o.pub.srcMsg} used={usedStr o.pub.used} snap={snapshotStr o.pub.snapshot} nu={optStr toString o.pub.nextUpdate} srcs={srcsStr o.ctrl.srcs}"
   | .exit => s!"{calls} end=exit"
   | .panic => s!"{calls} end=panic"
 
@@ -133,6 +134,10 @@ def stepLine (s : DState) (line : String) : DState × String :=
   | "cfg" :: rest =>
     match parseCfg rest with
     | some (cfg, st) => ({ cfg := some cfg, c := { srcs := [], st := st, td := TimeData.init } }, "ok")
+    | none => (s, "bad-op")
+  | "dur" :: rest =>
+    match kvF? rest "x" with
+    | some x => (s, optStr toString (durationNanos x))
     | none => (s, "bad-op")
   | op :: rest =>
     match s.cfg with
